@@ -670,6 +670,8 @@ def expand_font(tokens, name):
     # Values for font-style, font-variant-caps, font-weight and font-stretch
     # can come in any order and are all optional.
     for _ in range(4):
+        if not tokens:
+            raise InvalidValues
         token = tokens.pop()
         if get_keyword(token) == 'normal':
             # Just ignore 'normal' keywords. Unspecified properties will get
